@@ -402,6 +402,10 @@ class Session:
         self.handles.append((len(self.cass) - 1, cas))
         return len(self.handles) - 1
 
+    def op_rt_applies(self, o):
+        # a question to the model only (does the round-trip theorem apply to this CAS?)
+        return None
+
     def op_cas_reload(self, o):
         from cassis import load_cas_from_json, load_cas_from_xmi
         ci, h = self.handles[o["h"]]
